@@ -98,3 +98,103 @@ pub fn search_text(expr: &str, doc_json: &str) -> ImpOut {
 pub fn search_j(expr: &str, doc: &J) -> ImpOut {
     search_text(expr, &doc.to_json())
 }
+
+/// Search with an expression object assembled by hand: `Expression::new` on a
+/// public `Ast` that did not come out of the parser (offsets chosen by the
+/// caller, any label as the expression text), bound to `runtime`.
+pub fn search_ast(label: &str, ast: jmespath::ast::Ast, runtime: &jmespath::Runtime, doc_json: &str) -> ImpOut {
+    let r = catch(std::panic::AssertUnwindSafe(|| {
+        let e = jmespath::Expression::new(label, ast, runtime);
+        let v = match Variable::from_json(doc_json) {
+            Ok(v) => v,
+            Err(m) => return ImpOut::BadDoc(m),
+        };
+        match e.search(v) {
+            Ok(r) => ImpOut::Ok(var_to_j(&r)),
+            Err(err) => ImpOut::SearchErr(classify(&err)),
+        }
+    }));
+    match r {
+        Ok(o) => o,
+        Err(p) => ImpOut::Panic(p),
+    }
+}
+
+/// The hand-built-Ast route must agree with the text route: same value
+/// (exactly) or an error of the same kind.  Offsets are all zero, all equal to
+/// some constant, or small random numbers (they only matter for error
+/// coordinates, which are not compared here).
+pub fn ast_route_agrees(sub: &str, tree: &crate::refast::RefExpr, text: &str, doc_json: &str, src: &mut crate::src::Src) -> Result<(), crate::runner::Failure> {
+    let shape = crate::refast::lower(tree);
+    let mode = src.below(4);
+    let c = src.below(40);
+    let mut k = 0usize;
+    let mut bytes: Vec<usize> = (0..64).map(|_| src.below(12)).collect();
+    let mut next = move || -> usize {
+        k += 1;
+        match mode {
+            0 => 0,
+            1 => c,
+            2 => bytes[k % 64],
+            _ => {
+                bytes[k % 64] += 1;
+                k
+            }
+        }
+    };
+    let ast = crate::shape::unstrip(&shape, &mut next);
+    let label = match src.below(3) {
+        0 => String::new(),
+        1 => text.to_string(),
+        _ => "hand-built".to_string(),
+    };
+    let mut rt = jmespath::Runtime::new();
+    rt.register_builtin_functions();
+    let via_ast = search_ast(&label, ast, &rt, doc_json);
+    let via_text = search_text(text, doc_json);
+    let same = match (&via_ast, &via_text) {
+        (ImpOut::Ok(a), ImpOut::Ok(b)) => a.exact_eq(b),
+        (ImpOut::SearchErr(a), ImpOut::SearchErr(b)) => a.class == b.class,
+        _ => false,
+    };
+    let offsets_kind = ["all 0", "all equal", "small random", "counting"][mode];
+    if same {
+        Ok(())
+    } else {
+        Err(crate::runner::Failure::new(
+            sub,
+            if matches!(via_ast, ImpOut::Panic(_)) { "panic" } else { "hand-built-ast-differs-from-parsed-expression" },
+            format!("Expression::new(<tree of {}>) gives {} but compile({}) gives {}", text, via_ast.brief(), text, via_text.brief()),
+            serde_json::json!({"expression": text, "document": doc_json, "offsets": offsets_kind, "label": label}),
+        ))
+    }
+}
+
+/// Search `r` on the *value* that searching `l` returned (the reference-counted
+/// result itself, handed back to `search` by value, by reference and as a
+/// plain `Variable`), without a trip through JSON text.
+pub fn search_chain(l: &str, r: &str, doc_json: &str) -> Vec<ImpOut> {
+    let res = catch(std::panic::AssertUnwindSafe(|| {
+        let (le, re) = match (jmespath::compile(l), jmespath::compile(r)) {
+            (Ok(a), Ok(b)) => (a, b),
+            (Err(e), _) | (_, Err(e)) => return vec![ImpOut::CompileErr(classify(&e))],
+        };
+        let v = match Variable::from_json(doc_json) {
+            Ok(v) => v,
+            Err(m) => return vec![ImpOut::BadDoc(m)],
+        };
+        let mid = match le.search(v) {
+            Ok(m) => m,
+            Err(e) => return vec![ImpOut::SearchErr(classify(&e))],
+        };
+        let out = |x: Result<jmespath::Rcvar, jmespath::JmespathError>| match x {
+            Ok(r) => ImpOut::Ok(var_to_j(&r)),
+            Err(e) => ImpOut::SearchErr(classify(&e)),
+        };
+        vec![out(re.search(mid.clone())), out(re.search(&mid)), out(re.search((*mid).clone())), out(re.search(&*mid))]
+    }));
+    match res {
+        Ok(v) => v,
+        Err(p) => vec![ImpOut::Panic(p)],
+    }
+}
